@@ -17,15 +17,16 @@ import (
 )
 
 type CCR struct {
-	Acct   int    `json:"acct"` // index into accounts; -1 unknown subscriber; -2 unknown rating group
-	Action int    `json:"action"`
-	Type   int    `json:"type"`
-	Amount uint64 `json:"amount"`
-	AmtRel string `json:"amtRel,omitempty"` // "", bal-1, bal, bal+1: amount relative to the current balance (resolved at run time)
-	Sess   string `json:"sess"`
-	Num    uint32 `json:"num"`
-	Both   bool   `json:"both,omitempty"`   // carry requested and used service units both
-	IdType int    `json:"idType,omitempty"` // Subscription-Id-Type (0 E164, 1 IMSI, 2 SIP URI, 3 NAI, 4 PRIVATE); only IMSI names an account
+	Acct   int     `json:"acct"` // index into accounts; -1 unknown subscriber; -2 unknown rating group
+	Action int     `json:"action"`
+	Type   int     `json:"type"`
+	Amount uint64  `json:"amount"`
+	AmtRel string  `json:"amtRel,omitempty"` // "", bal-1, bal, bal+1: amount relative to the current balance (resolved at run time)
+	Sess   string  `json:"sess"`
+	Num    uint32  `json:"num"`
+	Both   bool    `json:"both,omitempty"`   // carry requested and used service units both
+	Used   *uint64 `json:"used,omitempty"`   // with Both: the used service units differ from the requested ones (a reservation and a refund state their amount as requested units, a termination debit as used units)
+	IdType int     `json:"idType,omitempty"` // Subscription-Id-Type (0 E164, 1 IMSI, 2 SIP URI, 3 NAI, 4 PRIVATE); only IMSI names an account
 }
 
 type C07Case struct {
@@ -66,6 +67,10 @@ func genC07(t *rapid.T) C07Case {
 		r.Sess = rapid.SampledFrom([]string{"s1", "", "session;with;semicolons", "séssion-ü", "a-very-long-session-identifier-0123456789012345678901234567890123456789012345678901234567890123456789"}).Draw(t, "sess")
 		r.Num = rapid.SampledFrom([]uint32{0, 1, 2, 77, math.MaxUint32}).Draw(t, "num")
 		r.Both = rapid.IntRange(0, 4).Draw(t, "both") == 0
+		if r.Both && rapid.Bool().Draw(t, "usedDiffers") {
+			u := rapid.SampledFrom([]uint64{0, 1, 7, 120, 500, 5000}).Draw(t, "used")
+			r.Used = &u
+		}
 		r.IdType = 1
 		if rapid.IntRange(0, 7).Draw(t, "otherIdType") == 0 {
 			r.IdType = rapid.SampledFrom([]int{0, 2, 3, 4}).Draw(t, "idType")
@@ -155,8 +160,18 @@ func judgeC07(c C07Case) *h.Verdict {
 			MultipleServicesCreditControl: &cdt.MultipleServicesCreditControl{RatingGroup: datatype.Unsigned32(rg),
 				RequestedServiceUnit: &cdt.RequestedServiceUnit{CCTotalOctets: datatype.Unsigned64(amount)}},
 		}
+		used := amount
+		if r.Both && r.Used != nil {
+			used = *r.Used
+			if idx >= 0 && model[idx] < 0 && used > uint64(math.MaxInt64+model[idx]) {
+				used = 1
+			}
+			if used != amount {
+				v.Label("used-differs-from-requested")
+			}
+		}
 		if (r.Action == 0 && r.Type == 3) || r.Both {
-			ccr.MultipleServicesCreditControl.UsedServiceUnit = &cdt.UsedServiceUnit{CCTotalOctets: datatype.Unsigned64(amount)}
+			ccr.MultipleServicesCreditControl.UsedServiceUnit = &cdt.UsedServiceUnit{CCTotalOctets: datatype.Unsigned64(used)}
 		}
 		msg := diam.NewRequest(ccode.ABMF_CreditControl, ccode.Re_interface, dict.Default)
 		if err := msg.Marshal(ccr); err != nil {
@@ -242,8 +257,8 @@ func judgeC07(c C07Case) *h.Verdict {
 			if exhausted[idx] && amount > 0 {
 				refundAfterExhaust = true
 			}
-		case r.Action == 0 && r.Type == 3: // termination debit
-			model[idx] = bal - int64(amount)
+		case r.Action == 0 && r.Type == 3: // termination debit: the amount stated is the used service units
+			model[idx] = bal - int64(used)
 			changes[idx]++
 		case r.Action == 0: // EVENT_REQUEST direct debiting: not specified by the property
 			exact = false
